@@ -553,7 +553,7 @@ func (bt *builtTx) msgUnjail() (postypes.MsgUnjail, bool) {
 
 var valsetKinds = []string{"stake", "stake", "stake", "unstake", "unstake", "unjail", "unjail", "burn", "burn", "send", "award", "param"}
 
-var c05Profile = &histProfile{MaxBlocks: 24, MinBlocksOf: []int{3, 8, 14}, Evidence: 4, Missed: 1, Restart: 0, MaxTxs: 4, TxKinds: valsetKinds, Scripts: true,
+var c05Profile = &histProfile{MaxBlocks: 24, MinBlocksOf: []int{3, 8, 14}, Evidence: 4, Missed: 1, Restart: 0, MaxTxs: 4, TxKinds: valsetKinds, Scripts: true, Batches: true,
 	MaxVals: []uint64{1, 2, 3, 5, 100000}, Windows: []int64{10, 10, 14}}
 
 func genValset(pr *histProfile, noMinChange bool) func(t *rapid.T, tier string) interface{} {
@@ -664,9 +664,9 @@ func execC09(prog interface{}, c *Case) *Violation {
 var _ = bytes.Equal
 
 func init() {
-	c06Profile := &histProfile{MaxBlocks: 24, MinBlocksOf: []int{3, 8, 14}, Evidence: 5, Missed: 2, Restart: 0, MaxTxs: 5, FixedMin: true, Scripts: true,
+	c06Profile := &histProfile{MaxBlocks: 24, MinBlocksOf: []int{3, 8, 14}, Evidence: 5, Missed: 2, Restart: 0, MaxTxs: 5, FixedMin: true, Scripts: true, Batches: true,
 		TxKinds: []string{"stake", "stake", "stake", "unstake", "unstake", "unstake", "unjail", "burn", "burn", "send", "award"}, Windows: []int64{10, 10, 14}}
-	c09Profile := &histProfile{MaxBlocks: 30, MinBlocksOf: []int{6, 12, 20}, Evidence: 5, Missed: 1, Restart: 0, MaxTxs: 4, Scripts: true,
+	c09Profile := &histProfile{MaxBlocks: 30, MinBlocksOf: []int{6, 12, 20}, Evidence: 5, Missed: 1, Restart: 0, MaxTxs: 4, Scripts: true, Batches: true,
 		TxKinds: []string{"unjail", "unjail", "unjail", "stake", "unstake", "burn", "send", "param"}, Windows: []int64{10, 10, 10}}
 	register(&PropDef{ID: "C05",
 		Rule: "chain histories biased to staking-state changes with MaxValidators in {1,2,3,5,100000} (also changed by governance), equal-power groups, powers straddling the cut-off, jail/unjail, slashes, " +
